@@ -129,8 +129,9 @@ def observed_request(drv, config, cachepath, data, tls):
         w, _watch = _watch, None
     after = file_state(cachepath)
     out = mask(drv.s2b(r["out"]))
+    crashed = bool(r["exc"]) or (not out and any("EXCEPTION" in x for x in r["log"]))
     return {"now_ms": now_ms, "hash": digest(out), "len": len(out), "head": drv.b2s(out[:160]),
-            "exc": r["exc"], "log": r["log"][-2:], "opened_r": w["r"], "opened_w": w["w"],
+            "exc": r["exc"], "crashed": crashed, "log": r["log"][-2:], "opened_r": w["r"], "opened_w": w["w"],
             "before": before, "after": after, "secs": r["secs"]}
 
 
